@@ -46,6 +46,19 @@ theorem interned_default (ops : List Op) (c i : Nat) :
   rw [spec_default S hI c hc none (fun i hi => by cases hi) (fun i hi => by cases hi) rfl]
   exact ho
 
+/-- `_ALL_DEFAULT_ARGS` of a class walks its *render* ancestors only — all of them: it holds exactly
+    the classes of the render-class chain `mro c` (self … `Renderable`) that have a namespace class, each
+    with its default namespace. Non-render mix-in bases of a render class (`class B(Mixin, A)`,
+    `class B(A, Mixin)`) are not part of the model's class tree: they must neither add to nor cut this
+    walk (`RenderableMeta.__new__` skips them with `continue`). -/
+theorem all_defaults_over_render_ancestors (S : State) (hR : Reach S) (c : Cls) (hc : c < S.T.length) :
+    keys (S.ada c) = (S.mro c).filter (fun m => (S.args m).isSome) ∧
+    (∀ k ∈ keys (S.ada c), get? (S.ada c) k = some (S.dflNs k)) ∧
+    c ∈ S.mro c ∧ (∀ b ∈ S.mro c, ∀ a ∈ S.mro b, a ∈ S.mro c) := by
+  have hI := reach_inv hR
+  exact ⟨keys_ada S hI.tinv c hc, fun k hk => get?_ada S hI.tinv c hc k hk, mro_self S hI.tinv c hc,
+    fun b hb a ha => mro_trans S hI.tinv c hc b a hb ha⟩
+
 /-! ## the constructor -/
 
 /-- `RenderArgs(rc, init, *nss)`, whenever it returns, returns an object whose value is the
